@@ -340,3 +340,37 @@ theorem swapBlock_drop_perm {α} (rows : List α) (i fs : Nat) (hlen : (i + 1) *
     exact List.Perm.append_right _ List.perm_append_comm
 
 end LinfaSpec.Fold
+
+namespace LinfaSpec.Fold
+
+/-! round 3: one fold size for both containers, `ChunksIter`, row counts -/
+
+theorem foldPairs_eq_foldWith {α} (k : Nat) (ds : List α) (hk : k ≠ 0) :
+    foldPairs k ds = foldWith (ds.length / k) k ds := by
+  unfold foldPairs foldWith
+  simp only [hk, if_false]
+
+theorem le_div_div (n k : Nat) (hk : 0 < k) (hn : k ≤ n) : k ≤ n / (n / k) := by
+  have hfs : 0 < n / k := Nat.div_pos hn hk
+  rw [Nat.le_div_iff_mul_le hfs]
+  exact Nat.mul_div_le n k
+
+/-- the first `k` of the (record block, target block) pairs `ChunksIter` yields -/
+theorem sampleChunks_zip_take {α β} (n fs p t k : Nat) (a : List α) (b : List β) (h : k ≤ n / fs) :
+    ((sampleChunks n fs p a).zip (sampleChunks n fs t b)).take k =
+      (List.range k).map fun i =>
+        ((a.drop (i * (fs * p))).take (fs * p), (b.drop (i * (fs * t))).take (fs * t)) := by
+  unfold sampleChunks
+  rw [List.zip_map', ← List.map_take, List.take_range, Nat.min_eq_left h]
+
+theorem flatten_length_uniform {α} (rows : List (List α)) (p : Nat) (h : ∀ r ∈ rows, r.length = p) :
+    rows.flatten.length = rows.length * p := by
+  induction rows with
+  | nil => simp
+  | cons r rs ih =>
+    have hr : r.length = p := h r (by simp)
+    have := ih (fun x hx => h x (by simp [hx]))
+    simp only [List.flatten_cons, List.length_append, List.length_cons, this, hr, Nat.succ_mul]
+    omega
+
+end LinfaSpec.Fold
